@@ -32,6 +32,7 @@ Record pst := mkPst {
 Definition pst_init : pst := mkPst [] [] None false [] 0 false.
 
 Inductive pop :=
+| DeliverEmpty                                   (* an Empty changeset covering this version *)
 | Deliver (s e last : Z) (changes : list row)
 | ApplyBuffered
 | Clear.
@@ -44,6 +45,11 @@ Definition covered (p : partial) : bool :=
 
 Definition pstep (st : pst) (op : pop) : pst * pout :=
   match op with
+  | DeliverEmpty =>
+    let have := ps_known st && match ps_mem st with Some p => covered p | None => true end in
+    if have then (st, PSkipKnown)
+    else (mkPst (ps_rows st) (ps_buf st) None true (ps_db st) (ps_trig st)
+                (ps_clear st || negb (match ps_rows st, ps_buf st with [], [] => true | _, _ => false end)), PCleared)
   | Deliver s e last changes =>
     let have := ps_known st &&
                 match ps_mem st with
@@ -52,8 +58,9 @@ Definition pstep (st : pst) (op : pop) : pst * pout :=
     if have then (st, PSkipKnown)
     else if (s =? 0) && (e =? last) then
       match changes with
-      | [] => (mkPst (ps_rows st) (ps_buf st) (ps_mem st) true (ps_db st) (ps_trig st) (ps_clear st), PCleared)
-      | _ => (mkPst (ps_rows st) (ps_buf st) (ps_mem st) true (ps_db st ++ changes) (ps_trig st)
+      | [] => (mkPst (ps_rows st) (ps_buf st) None true (ps_db st) (ps_trig st)
+                     (ps_clear st || negb (match ps_rows st, ps_buf st with [], [] => true | _, _ => false end)), PCleared)
+      | _ => (mkPst (ps_rows st) (ps_buf st) None true (ps_db st ++ changes) (ps_trig st)
                     (ps_clear st || negb (match ps_rows st, ps_buf st with [], [] => true | _, _ => false end)),
               PApplied)
       end
